@@ -34,3 +34,24 @@ Example C02_example :
   climb nat kind prec 10%nat 0%nat (Leaf nat kind 0%nat) [(K_PLUS, 1%nat); (K_TIMES, 2%nat); (K_MINUS, 3%nat)]
   = Some (Bin nat kind K_MINUS (Bin nat kind K_PLUS (Leaf nat kind 0%nat) (Bin nat kind K_TIMES (Leaf nat kind 1%nat) (Leaf nat kind 2%nat))) (Leaf nat kind 3%nat), []).
 Proof. vm_compute. reflexivity. Qed.
+
+(* the stratified grammar is unambiguous: an operator/operand sequence has at most one tree *)
+Theorem C02_grammar_unambiguous : forall (atom op: Type) (prec: op -> nat) p h l t1 t2,
+  D atom op prec p h l t1 -> D atom op prec p h l t2 -> t1 = t2.
+Proof. intros atom op prec p h l t1 t2 H1 H2. exact (D_unique atom op prec p h l t1 H1 t2 H2). Qed.
+Print Assumptions C02_grammar_unambiguous.
+
+(* the same on the whole-parser model (ParserMain.v, tied to c_parser.py by correspondence): for every
+   token stream, state and fuel, the BinaryOp tree _parse_binary_expression returns is THE tree the
+   stratified C grammar assigns to the operator tokens it consumed (Seq: each one peeked, found in
+   the precedence table, advanced over) and the cast-expressions parsed between them; each BinaryOp
+   takes the coordinate of its left operand; it stops where no binary operator follows. *)
+From PV Require Import AstDefs AstSpec AstImpl PyRepr NodeModel ParserBase ParserDecl ParserMain BinaryRefine.
+Theorem C02_binary_expression_refines : forall (P: Type) f lhs0 s t s',
+  p_binary_climb P f 0 lhs0 s = Ok (t, s') ->
+  exists l T, t = to_node P T /\ Seq P s l s' /\
+              D (node P) (tok P) (bprec P) 0 (Leaf (node P) (tok P) lhs0) l T /\
+              (forall T', D (node P) (tok P) (bprec P) 0 (Leaf (node P) (tok P) lhs0) l T' -> T' = T) /\
+              (forall o s1, peek P s' = Ok (Some o, s1) -> prec_of (tk o) = None).
+Proof. exact binary_expression_refines. Qed.
+Print Assumptions C02_binary_expression_refines.
